@@ -33,7 +33,9 @@ def judge(case):
         return cart and case["n_o"] < 3 and isinstance(e, QhullError)
     try:
         with quiet():
-            fg = FullGrid(b, o, t, factor=case.get("factor", 2), position_grid_cartesian=cart)
+            # the mode flag as a caller may hold it: Python bool, numpy bool (element of a flag array) or integer 0/1
+            flag = {"bool": bool, "np": np.bool_, "int": int}[case.get("flag_form", "bool")](cart)
+            fg = FullGrid(b, o, t, factor=case.get("factor", 2), position_grid_cartesian=flag)
     except Exception as e:
         outcomes["construct"] = type(e).__name__
         if not allowed(e):
@@ -76,7 +78,7 @@ def bucket(msg):
 def _one(case):
     res = Result()
     msgs, outcomes = judge(case)
-    classes = ["cartesian" if case["cartesian"] else "spherical"]
+    classes = ["cartesian" if case["cartesian"] else "spherical", f"mode_flag_as_{case.get('flag_form', 'bool')}"]
     classes += [f"{k}={v}" for k, v in outcomes.items() if v != "ok"]
     if all(v == "ok" for v in outcomes.values()):
         classes.append("all_getters_ok")
@@ -109,7 +111,7 @@ def run(tier):
             if ti == 1 and (ba, oa) != combos[0]:
                 continue
             cases.append({"b": f"{ba}_{n_b}", "o": f"{oa}_{n_o}", "t": t, "cartesian": cart,
-                          "n_b": n_b, "n_o": n_o, "n_t": n_t})
+                          "n_b": n_b, "n_o": n_o, "n_t": n_t, "flag_form": ("bool", "np", "int", "bool")[len(cases) % 4]})
     # bare numbers select the default algorithms
     for n_b, n_o in itertools.product(nb_range, no_range):
         cases.append({"b": str(n_b), "o": str(n_o), "t": "[0.1, 0.3]", "cartesian": False, "n_b": n_b, "n_o": n_o, "n_t": 2})
@@ -124,7 +126,7 @@ def run(tier):
             keep.append(v)
     res.violations = keep
     rule = (f"exhaustive box: n_b in {list(nb_range)}, n_o in {list(no_range)}, n_t in {list(nt_range)} (two radial syntaxes "
-            f"each), both position modes, algorithm pairs {combos} plus bare-number names, all five getters per grid, adjacency and distances also with each optional selector (only_orientation / only_position). "
+            f"each), both position modes (flag passed as Python bool, numpy bool or integer), algorithm pairs {combos} plus bare-number names, all five getters per grid, adjacency and distances also with each optional selector (only_orientation / only_position). "
             f"Non-trivial = a tiny case (n_b<=3 or n_o<=3 or a single radius); distinct = distinct specification.")
     return res, rule, {"exhaustive": True, "assumptions": [
         "Cartesian mode with n_o < 3: the geometry library's QhullError is an allowed rejection (stated in the property)"]}
